@@ -6,7 +6,7 @@
    dsem (Spec_Ops.v) is the compositional meaning of the surface syntax; elab mirrors the
    class each overload constructs. *)
 From Coq Require Import List NArith ZArith Arith Bool.
-From BSpl Require Import Scalar Outcome Support Poly Spline Ops Forms Generator Interp Spec Spec_Ops Spec_Gen Proofs_Support Proofs_Scalar Proofs_Poly Proofs_Binom Proofs_Eval Proofs_Outcome Proofs_Spline Proofs_Forms Proofs_Ops Proofs_Forms2 Proofs_Interp Proofs_Pred Proofs_Gen.
+From BSpl Require Import Scalar Outcome Support Poly Spline Ops Forms Generator Interp Spec Spec_Ops Spec_Gen Proofs_Support Proofs_Scalar Proofs_Poly Proofs_Binom Proofs_Eval Proofs_Outcome Proofs_Spline Proofs_Forms Proofs_Ops Proofs_Forms2 Proofs_Interp Proofs_Pred Proofs_Gen Instances Instances_Ext Proofs_Valid Solver Pool Quad Proofs_Pool Proofs_Quad Proofs_Sites Proofs_Rounded Proofs_Threads Proofs_Updates Examples Proofs_Examples Proofs_Analysis Proofs_SupportGen Proofs_Smooth Proofs_Laws.
 Import ListNotations.
 
 
@@ -90,6 +90,190 @@ Theorem C05_factor_on_other_grid :
            sgridp v <> sgridp s -> nintervals (ssup s) <> 0%N -> apply (OSpl v) s = Throw DIFFERING_GRIDS.
 Proof. exact (@Proofs_Ops.apply_differing). Qed.
 
+Theorem C05_law_product :
+    forall (F : Type) (K : Ops F),
+           Laws K ->
+           forall (a b : expr F) (s : spline F),
+           SplInv s ->
+           factors_ok a (sgridp s) ->
+           scalars_ok a ->
+           factors_ok b (sgridp s) ->
+           scalars_ok b ->
+           exists r r1 r2 : spline F,
+             apply (elab (EMul a b)) s = Ok r /\
+             apply (elab b) s = Ok r1 /\ apply (elab a) r1 = Ok r2 /\ den_eq r r2.
+Proof. exact (@Proofs_Laws.law_product). Qed.
+
+Theorem C05_law_sum :
+    forall (F : Type) (K : Ops F),
+           Laws K ->
+           forall (a b : expr F) (s : spline F),
+           SplInv s ->
+           factors_ok a (sgridp s) ->
+           scalars_ok a ->
+           factors_ok b (sgridp s) ->
+           scalars_ok b ->
+           exists r ra rb rs : spline F,
+             apply (elab (EAdd a b)) s = Ok r /\
+             apply (elab a) s = Ok ra /\ apply (elab b) s = Ok rb /\ spl_add ra rb = Ok rs /\ den_eq r rs.
+Proof. exact (@Proofs_Laws.law_sum). Qed.
+
+Theorem C05_law_difference :
+    forall (F : Type) (K : Ops F),
+           Laws K ->
+           forall (a b : expr F) (s : spline F),
+           SplInv s ->
+           factors_ok a (sgridp s) ->
+           scalars_ok a ->
+           factors_ok b (sgridp s) ->
+           scalars_ok b ->
+           exists r ra rb rs : spline F,
+             apply (elab (ESub a b)) s = Ok r /\
+             apply (elab a) s = Ok ra /\ apply (elab b) s = Ok rb /\ spl_sub ra rb = Ok rs /\ den_eq r rs.
+Proof. exact (@Proofs_Laws.law_difference). Qed.
+
+Theorem C05_law_scalar_left :
+    forall (F : Type) (K : Ops F),
+           Laws K ->
+           forall (c : scalar F) (a : expr F) (s : spline F),
+           SplInv s ->
+           factors_ok a (sgridp s) ->
+           scalars_ok a ->
+           scalar_wf c ->
+           exists r ra : spline F,
+             apply (elab (ESMulL c a)) s = Ok r /\ apply (elab a) s = Ok ra /\ den_eq r (spl_scale_l (sval c) ra).
+Proof. exact (@Proofs_Laws.law_scalar_left). Qed.
+
+Theorem C05_law_scalar_right :
+    forall (F : Type) (K : Ops F),
+           Laws K ->
+           forall (a : expr F) (c : scalar F) (s : spline F),
+           SplInv s ->
+           factors_ok a (sgridp s) ->
+           scalars_ok a ->
+           scalar_wf c ->
+           exists r ra : spline F,
+             apply (elab (ESMulR a c)) s = Ok r /\ apply (elab a) s = Ok ra /\ den_eq r (spl_scale ra (sval c)).
+Proof. exact (@Proofs_Laws.law_scalar_right). Qed.
+
+Theorem C05_law_add_scalar :
+    forall (F : Type) (K : Ops F),
+           Laws K ->
+           forall (a : expr F) (c : scalar F) (s : spline F),
+           SplInv s ->
+           factors_ok a (sgridp s) ->
+           scalars_ok a ->
+           scalar_wf c ->
+           exists r ra rs : spline F,
+             apply (elab (EAddS a c)) s = Ok r /\
+             apply (elab a) s = Ok ra /\ spl_add ra (spl_scale_l (sval c) s) = Ok rs /\ den_eq r rs.
+Proof. exact (@Proofs_Laws.law_add_scalar). Qed.
+
+Theorem C05_law_scalar_add :
+    forall (F : Type) (K : Ops F),
+           Laws K ->
+           forall (c : scalar F) (a : expr F) (s : spline F),
+           SplInv s ->
+           factors_ok a (sgridp s) ->
+           scalars_ok a ->
+           scalar_wf c ->
+           exists r ra rs : spline F,
+             apply (elab (ESAdd c a)) s = Ok r /\
+             apply (elab a) s = Ok ra /\ spl_add (spl_scale_l (sval c) s) ra = Ok rs /\ den_eq r rs.
+Proof. exact (@Proofs_Laws.law_scalar_add). Qed.
+
+Theorem C05_law_sub_scalar :
+    forall (F : Type) (K : Ops F),
+           Laws K ->
+           forall (a : expr F) (c : scalar F) (s : spline F),
+           SplInv s ->
+           factors_ok a (sgridp s) ->
+           scalars_ok a ->
+           scalar_wf c ->
+           exists r ra rs : spline F,
+             apply (elab (ESubS a c)) s = Ok r /\
+             apply (elab a) s = Ok ra /\ spl_sub ra (spl_scale_l (sval c) s) = Ok rs /\ den_eq r rs.
+Proof. exact (@Proofs_Laws.law_sub_scalar). Qed.
+
+Theorem C05_law_scalar_sub :
+    forall (F : Type) (K : Ops F),
+           Laws K ->
+           forall (c : scalar F) (a : expr F) (s : spline F),
+           SplInv s ->
+           factors_ok a (sgridp s) ->
+           scalars_ok a ->
+           scalar_wf c ->
+           exists r ra rs : spline F,
+             apply (elab (ESSub c a)) s = Ok r /\
+             apply (elab a) s = Ok ra /\ spl_sub (spl_scale_l (sval c) s) ra = Ok rs /\ den_eq r rs.
+Proof. exact (@Proofs_Laws.law_scalar_sub). Qed.
+
+Theorem C05_law_div_scalar :
+    forall (F : Type) (K : Ops F),
+           Laws K ->
+           forall (a : expr F) (c : scalar F) (s : spline F),
+           SplInv s ->
+           factors_ok a (sgridp s) ->
+           scalars_ok a ->
+           scalar_wf c ->
+           sval c <> f0 ->
+           exists r ra rd : spline F,
+             apply (elab (EDivS a c)) s = Ok r /\
+             apply (elab a) s = Ok ra /\ spl_div ra (sval c) = Ok rd /\ den_eq r rd.
+Proof. exact (@Proofs_Laws.law_div_scalar). Qed.
+
+Theorem C05_law_neg :
+    forall (F : Type) (K : Ops F),
+           Laws K ->
+           forall (a : expr F) (s : spline F),
+           SplInv s ->
+           factors_ok a (sgridp s) ->
+           scalars_ok a ->
+           exists r ra : spline F,
+             apply (elab (ENeg a)) s = Ok r /\ apply (elab a) s = Ok ra /\ den_eq r (spl_neg ra).
+Proof. exact (@Proofs_Laws.law_neg). Qed.
+
+Theorem C05_law_spline_factor :
+    forall (F : Type) (K : Ops F),
+           Laws K ->
+           forall v s : spline F,
+           SplInv s ->
+           SplInv v ->
+           sgridp v = sgridp s ->
+           exists r p : spline F,
+             apply (OSpl v) s = Ok r /\
+             spl_mul v s = Ok p /\
+             ssup r = ssup s /\
+             (forall (k : N) (x : F), imem k (ssup s) -> den r k x = den p k x) /\
+             (forall (k : N) (x : F), imem k (ssup s) -> den r k x = (den v k x * den s k x)%F) /\
+             (forall (k : N) (x : F), ~ imem k (ssup s) -> den r k x = f0) /\
+             (forall (k : N) (x : F), ~ imem k (ssup v) -> den r k x = f0).
+Proof. exact (@Proofs_Laws.law_spline_factor). Qed.
+
+Theorem C05_law_spline_factor_is_product :
+    forall (F : Type) (K : Ops F),
+           Laws K ->
+           forall v s : spline F,
+           SplInv s ->
+           SplInv v ->
+           sgridp v = sgridp s ->
+           exists r p : spline F, apply (OSpl v) s = Ok r /\ spl_mul v s = Ok p /\ den_eq r p.
+Proof. exact (@Proofs_Laws.law_spline_factor_den_eq). Qed.
+
+Theorem C05_law_commutator :
+    forall (F : Type) (K : Ops F),
+           Laws K ->
+           forall s : spline F,
+           SplInv s ->
+           exists r : spline F,
+             apply (elab (ESub (EMul (EDer 1) (EPos 1)) (EMul (EPos 1) (EDer 1)))) s = Ok r /\ den_eq r s.
+Proof. exact (@Proofs_Laws.law_commutator). Qed.
+
+Theorem C05_law_identity :
+    forall (F : Type) (K : Ops F),
+           Laws K -> forall s : spline F, SplInv s -> exists r : spline F, apply OId s = Ok r /\ den_eq r s.
+Proof. exact (@Proofs_Laws.law_identity). Qed.
+
 
 Print Assumptions C05_scalar_value.
 Print Assumptions C05_reciprocal.
@@ -101,3 +285,18 @@ Print Assumptions C05_meaning_depends_on_function_only.
 Print Assumptions C05_additive.
 Print Assumptions C05_homogeneous.
 Print Assumptions C05_factor_on_other_grid.
+Print Assumptions C05_law_product.
+Print Assumptions C05_law_sum.
+Print Assumptions C05_law_difference.
+Print Assumptions C05_law_scalar_left.
+Print Assumptions C05_law_scalar_right.
+Print Assumptions C05_law_add_scalar.
+Print Assumptions C05_law_scalar_add.
+Print Assumptions C05_law_sub_scalar.
+Print Assumptions C05_law_scalar_sub.
+Print Assumptions C05_law_div_scalar.
+Print Assumptions C05_law_neg.
+Print Assumptions C05_law_spline_factor.
+Print Assumptions C05_law_spline_factor_is_product.
+Print Assumptions C05_law_commutator.
+Print Assumptions C05_law_identity.
